@@ -251,9 +251,23 @@ def doc (j : Json) : Json := Id.run do
     | x :: rest => rest.map (fun y => (x, y)) ++ pairs rest
   for (x, y) in pairs implFold do
     if !foldRel (x.1, x.2.1) (y.1, y.2.1) then
+      let isRegion (k : Nat) : Bool := k == 0
+      let lineAt (i : Nat) : Txt := e.raw[i]?.getD []
+      -- a transaction fold ends on the line on which the next entry starts
       let nextEntry := (isTx x.1 x.2.1 && x.2.1 == y.1) || (isTx y.1 y.2.1 && y.2.1 == x.1)
-      let cmtSpan := (x.2.2 == 1 && isTx y.1 y.2.1 && y.1 < x.1) || (y.2.2 == 1 && isTx x.1 x.2.1 && x.1 < y.1)
-      a := a.fail (if fx.fold then "" else if nextEntry then "fold-ends-on-next-entry" else if cmtSpan then "comment-fold-spans-entries" else "")
+      -- a comment block starts with indented comment lines inside an entry's region and runs on
+      -- into top-level comment lines after it
+      let span (c r : Nat × Nat × Nat) : Bool :=
+        c.2.2 == 1 && isRegion r.2.2 && r.1 < c.1 && c.1 ≤ r.2.1 && r.2.1 < c.2.1 &&
+        isIndentedLine (lineAt c.1) && !isIndentedLine (lineAt c.2.1)
+      let cmtSpan := span x y || span y x
+      -- an indented posting whose account begins like a directive keyword ("    P x:y  1")
+      let likeDir (f : Nat × Nat × Nat) : Bool :=
+        isRegion f.2.2 && isIndentedLine (lineAt f.1) && isDirectiveLine (lineAt f.1)
+      let dirPosting := likeDir x || likeDir y
+      a := a.fail (if fx.fold then "" else if nextEntry then "fold-ends-on-next-entry"
+          else if cmtSpan then "comment-fold-spans-entries"
+          else if dirPosting then "fold-directive-like-posting" else "")
         s!"fold: regions {x.1}-{x.2.1} and {y.1}-{y.2.1} partially overlap"
   let symN := symR.toList.map fun x => (nrOf x).1
   if !laminarSymbols symN then
